@@ -98,3 +98,83 @@ def clockTimeToSec (h m s : Int) (pm : Bool) : Option Int :=
   if pm then (if t ≥ 43200 then none else some (t + 43200)) else some t
 
 end Wntr.InpText
+
+/-! ## `InpSchema` — the shape of the INP section writers / readers (wntr/epanet/io.py)
+
+The translator (`harness/props/c12.py`, Python `ast`) records for every section writer each value that reaches a
+`.format(...)` call and for every section reader each destination that is filled (`Gen/SchemaInp.lean`). -/
+namespace Wntr.InpSchema
+
+/-- a `to_si` / `from_si` call as written in io.py: direction, parameter enum (HydParam / QualParam value), and which
+optional arguments are passed (`darcy_weisbach=`, `reaction_order=<option name>`, mass units) -/
+structure Conv where
+  toSI : Bool
+  hyd : Bool
+  param : Nat
+  dw : Bool
+  order : String
+  mass : Bool
+  deriving Repr, DecidableEq
+
+/-- `write = true`: `name` is the model attribute read by `_write_X`, `fmt` the format spec it is printed with;
+`write = false`: `name` is the destination filled by `_read_X` (`add_*` parameter, attribute, `.append` slot).
+`toks`: string constants of the enclosing `if` tests and literal keywords (the guard); `const`: the value is a literal. -/
+structure Row where
+  sec : String
+  write : Bool
+  name : String
+  conv : Option Conv
+  fmt : String
+  toks : List String
+  const : Bool
+  deriving Repr, DecidableEq
+
+/-- one line of the specification: attribute `key` of element class `cls` is carried by the writer of section `wsec`
+(reading model attribute `w` under guard `wtoks`) and restored by the reader of section `rsec` into `r` under `rtoks` -/
+structure Field where
+  cls : String
+  key : String
+  wsec : String
+  w : String
+  wtoks : List String
+  rsec : String
+  r : String
+  rtoks : List String
+  deriving Repr, DecidableEq
+
+def Row.has (row : Row) (sec : String) (write : Bool) (name : String) (toks : List String) : Bool :=
+  row.sec == sec && row.write == write && row.name == name && toks.all fun t => row.toks.contains t
+
+def Field.wRows (f : Field) (rows : List Row) : List Row := rows.filter fun x => x.has f.wsec true f.w f.wtoks
+def Field.rRows (f : Field) (rows : List Row) : List Row := rows.filter fun x => x.has f.rsec false f.r f.rtoks
+
+/-- two conversion calls undo each other as far as their SHAPE goes: opposite directions, same parameter family and
+the same optional arguments; whether the two parameters convert alike is decided on the units table -/
+def Conv.shapeOk (a b : Conv) : Bool :=
+  a.toSI != b.toSI && a.hyd == b.hyd && a.dw == b.dw && a.order == b.order && a.mass == b.mass
+
+def rowsCompat (a b : Row) : Bool :=
+  match a.conv, b.conv with
+  | none, none => true
+  | some x, some y => x.shapeOk y
+  | _, _ => false
+
+/-- the field is present on both sides and every (written, read) pair of non-literal rows agrees on the conversion shape -/
+def Field.ok (f : Field) (rows : List Row) : Bool :=
+  !(f.wRows rows).isEmpty && !(f.rRows rows).isEmpty &&
+  ((f.wRows rows).filter (!·.const)).all fun a => ((f.rRows rows).filter (!·.const)).all fun b => rowsCompat a b
+
+/-- the (write-side, read-side) conversion pairs a specification uses -/
+def convPairs (fs : List Field) (rows : List Row) : List (Conv × Conv) :=
+  (fs.flatMap fun f => (f.wRows rows).flatMap fun a => (f.rRows rows).filterMap fun b =>
+    match a.conv, b.conv with
+    | some x, some y => some (x, y)
+    | _, _ => none).eraseDups
+
+/-- rows with a conversion that no field of the specification accounts for -/
+def unclaimed (fs : List Field) (rows : List Row) : List Row :=
+  rows.filter fun x => x.conv.isSome &&
+    !(fs.any fun f => if x.write then x.has f.wsec true f.w f.wtoks else x.has f.rsec false f.r f.rtoks)
+
+end Wntr.InpSchema
+
